@@ -72,6 +72,7 @@ class Ser:
         if isinstance(s, ast.Try) and not s.finalbody and not s.orelse and len(s.handlers) == 1:
             return "STry %s %s" % (self.stmts(s.body), self.stmts(s.handlers[0].body))
         if isinstance(s, ast.Pass): return "SPass"
+        if isinstance(s, (ast.Import, ast.ImportFrom)): return "SPass"   # names resolve through the function environment
         if isinstance(s, ast.Assert): return "SAssert %s" % self.expr(s.test)
         return "SUnsupported %s" % q(type(s).__name__)
     def fundef(self, f, coqname):
@@ -92,6 +93,16 @@ def main(spec_path, out):
     for entry in spec:
         src = open(entry["file"]).read(); tree = ast.parse(src); ser = Ser(src)
         for cls, fn in entry["items"]:
+            if cls is None and fn.startswith("="):
+                # module-level constant:  NAME = <expr>   ->  Definition src_const_NAME : expr
+                cname = fn[1:]; found = None
+                for n in tree.body:
+                    if isinstance(n, ast.Assign) and len(n.targets) == 1 and isinstance(n.targets[0], ast.Name) and n.targets[0].id == cname:
+                        found = n
+                if found is None: lines.append("(* MISSING constant %s in %s *)" % (cname, entry["file"])); continue
+                lines.append("(* %s : constant %s, line %d *)" % (entry["file"], cname, found.lineno))
+                lines.append("Definition src_const_%s : expr :=\n  %s." % (cname.strip("_"), ser.expr(found.value))); lines.append("")
+                continue
             node = None
             for n in tree.body:
                 if cls is None and isinstance(n, ast.FunctionDef) and n.name == fn: node = n
